@@ -113,9 +113,27 @@ def run(repo, tier):
         "IEEE-754 binary16/32/64 parameters and with each other. Round-trip equalities on runtime values are NOT decided."
     )
     r.trusted_base = ["Python ast", "IEEE-754 binary16/32/64 parameters"]
+    r.rule("R13.2", "float2expansion subtracts each word in the accumulator's own type (a Python float minus a numpy scalar is computed in the scalar's narrower type)", floor=1)
     r.rule("R13.1", "format tables agree with IEEE-754 binary16/32/64 (widths, exponent/significand bits, precision, exponent ranges)", floor=30)
     n = check_format_dicts(r, repo)
     n += check_mpmath_tables(r, repo)
+    # R13.2: float2expansion residual
+    fe = repo.func(REL, "float2expansion")
+    word = None  # name bound to dtype(q)
+    upd = []
+    for n in ast.walk(fe):
+        if isinstance(n, ast.Assign) and isinstance(n.targets[0], ast.Name) and isinstance(n.value, ast.Call) and dotted(n.value.func) == "dtype" and n.value.args and dotted(n.value.args[0]) == "q":
+            word = n.targets[0].id
+        if isinstance(n, ast.Assign) and dotted(n.targets[0]) == "q" and isinstance(n.value, ast.BinOp) and isinstance(n.value.op, ast.Sub):
+            upd.append(n)
+    if word is None or len(upd) != 1:
+        raise AnalysisError("float2expansion: `f = dtype(q)` / `q = q - ...` not found")
+    rhs = upd[0].value.right
+    bare = isinstance(rhs, ast.Name) and rhs.id == word
+    cast_ok = isinstance(rhs, ast.Call) and norm_src(rhs.func) in ("type(q)", "float", "numpy.float64", "fractions.Fraction", "float2fraction") and rhs.args and dotted(rhs.args[0]) == word
+    r.ob("R13.2", f"{REL}::float2expansion residual update", cast_ok and not bare,
+         f"`{norm_src(upd[0])}`: q may be a Python float (number2expansion accepts `float`); under NumPy's weak-scalar promotion `python_float - numpy.{'{dtype}'}` is "
+         "computed in the narrower dtype, the residual rounds to 0 and the expansion loses its tail (value no longer equals the input)", loc(REL, upd[0]))
     # float2fraction: field sizes derived from finfo
     f = repo.func(REL, "float2fraction")
     env = {}
